@@ -698,6 +698,8 @@ def record_ext_alone(sc):
     import elfi
     streams = {}
     events = []
+    live = np.random.RandomState(0)     # sc["live_gen"]: ONE generator object serves every event (as the batch generator serves every
+    #                                     node of a batch) - it is put into the event's state; the seed follows the state, not the object
     for k, e in enumerate(sc["events"]):
         tmpl_str, tmpl_log, sep = build_template(e["tmpl"])
         reclog = []
@@ -718,6 +720,9 @@ def record_ext_alone(sc):
             gen = "g%d_%d" % (e["rs"]["seed"], e["rs"]["adv"])
             if gen not in streams:
                 streams[gen] = stream_for_key(int(rs.get_state()[1][0]))
+            if sc.get("live_gen"):
+                live.set_state(rs.get_state())
+                rs = live
             kwargs["random_state"] = rs
         ev = ext_event(tmpl_log, e["path"], e["req"], e["vec"], logs, e.get("mask"), e.get("bs"), e["kw"], meta,
                        e.get("rs") is not None, gen)
@@ -977,7 +982,7 @@ def ext_scenarios(ctx, rnd):
             if ext_is_finding_class(e):
                 e["meta"] = dict(batch_index=1)          # keep the finding's class out of mixed traces
             events.append(e)
-        scs.append(dict(kind="ext", ctx="random", events=events, salt=k + 5000 * ctx.seed))
+        scs.append(dict(kind="ext", ctx="random", events=events, salt=k + 5000 * ctx.seed, live_gen=(k % 2 == 0)))
     # two generators taking turns: a whole batch with generator A, then ONE row (index > 0) with generator B, then the whole
     # batch with B - the seed of (B, row) is the same both times, whatever was served in between
     for k in range(6):
